@@ -98,17 +98,25 @@ def units(tier, variant):
     out.append(dict(kind='long', variant=variant))
     out.append(dict(kind='nsc', variant=variant))
     out.append(dict(kind='fuzzy-name', variant=variant))
+    out.append(dict(kind='gcat', variant=variant))
     return out
 
 
-def ref_material(glass, w):
-    """Index of the medium the file asks for (catalogue glass when the name is known, else the model glass)."""
+CATALOGUE_NAMES = [k[0] for k in KNOWN] + ['SF6', 'BAF2', 'TF3']
+_REF_GLASS = {}
+
+
+def ref_material(glass, w, gcat=None):
+    """Index of the medium the file asks for: the glass of that name in the catalogue the file names (GCAT), else the model glass."""
     from optiland.materials import Material, AbbeMaterial
     if glass is None:
         return 1.0
     name, nd, vd = glass
-    if name in [k[0] for k in KNOWN]:
-        return float(np.ravel(LZ._ref_mat(name).n(w))[0])
+    if name in CATALOGUE_NAMES:
+        key = (name, (gcat or [None])[0])
+        if key not in _REF_GLASS:
+            _REF_GLASS[key] = Material(name, key[1].lower()) if key[1] else Material(name)
+        return float(np.ravel(_REF_GLASS[key].n(w))[0])
     return float(np.ravel(AbbeMaterial(nd, vd).n(w))[0])
 
 
@@ -181,7 +189,7 @@ def check_file(part, header, surf_rows, obj_disz, stop_k, encoding, det, cond, k
         if gl is None:
             if abs(n_got - 1.0) > 1e-12:
                 bad('medium-air', n_got, 1.0, dict(surface=k))
-        elif gl[0] in [k_[0] for k_ in KNOWN]:
+        elif gl[0] in CATALOGUE_NAMES:
             if not isinstance(m, Material) or abs(n_got - gl[1]) > 1e-3:
                 bad('medium-catalogue-glass', [type(m).__name__, n_got], ['Material', gl[1]], dict(surface=k, glass=gl[0]))
         else:
@@ -221,7 +229,7 @@ def check_file(part, header, surf_rows, obj_disz, stop_k, encoding, det, cond, k
         n_prev = 1.0
         for k in range(N):
             r = rows[k]
-            n_post = ref_material(r.get('glass'), wp) if 0 < k < N - 1 else (1.0 if k == 0 else 1.0)
+            n_post = ref_material(r.get('glass'), wp, header.get('gcat')) if 0 < k < N - 1 else (1.0 if k == 0 else 1.0)
             rws.append(dict(shape='conic' if r.get('curv', 0.0) != 0 else 'plane', R=(math.inf if r.get('curv', 0.0) == 0 else 1.0 / r['curv']),
                             z=zexp[k], n_pre=n_prev, n_post=n_post, mirror=False, stop=(k == stop_k + 1)))
             n_prev = n_post
@@ -334,7 +342,24 @@ def run_fuzzy(part, unit):
     part.sample(dict(fuzzy=['N-BK', 'SF1', 'LAK']))
 
 
+def run_gcat(part, unit):
+    """Exact catalogue names that exist under several vendors (or also as a crystal / a gas): the GCAT line says which one."""
+    v = unit['variant']
+    A = alphabet(v)
+    for vendor, name, nd, vd in (('SCHOTT', 'SF6', 1.80518, 25.43), ('CDGM', 'F2', 1.61293, 36.96), ('CDGM', 'BAF2', 1.56970, 49.4),
+                                 ('LZOS', 'TF3', 1.71741, 29.5), ('SCHOTT', 'F2', 1.62004, 36.37), ('HIKARI', 'F2', 1.62004, 36.30)):
+        H = dict(base_header(v), gcat=[vendor])
+        surf = [dict(A[0], glass=(name, nd, vd)), A[1]]
+        part.states += 1
+        check_file(part, H, surf, 'INFINITY', 0, 'utf-8', dict(word='gcat', glass=name, vendor=vendor, variant=v), 'catalogue-named-in-GCAT')
+        part.outcome('gcat', vendor, name)
+    part.sample(dict(gcat='vendor-qualified names'))
+
+
 def run_unit(unit):
     part = Part(unit)
+    if unit['kind'] == 'gcat':
+        run_gcat(part, unit)
+        return part
     dict(words=run_words, headers=run_headers, long=run_long, nsc=run_nsc)[unit['kind']](part, unit) if unit['kind'] != 'fuzzy-name' else run_fuzzy(part, unit)
     return part
